@@ -1186,7 +1186,7 @@ func runPEM(c *core.Ctx, all []genCert) {
 		pemOf(i, false)
 		pemOf(i, true)
 	}
-	driver.Imports += "\n" + defs.String()
+	driver.Prelude += "\n" + defs.String()
 	gData := func(data []byte) string {
 		var parts []string
 		var lit []byte
